@@ -34,7 +34,7 @@ def template(prefix: str, depth: int):
          (prefix + "lf.md", "l", "{R}/out/secret.md"), (prefix + "lfi.md", "l", "f.md"),
          (prefix + "dang.md", "l", "{R}/out/missing.md"), (prefix + "dangd", "l", "missing_dir"),
          (prefix + "loop.md", "l", "loop.md"), (prefix + "up", "l", ".."),
-         (prefix + "trick.md", "l", "trick.md/../f.md"),
+         (prefix + "trick.md", "l", "trick.md/../f.md"), (prefix + "selfmiss.md", "l", "missing/../selfmiss.md"),
          (prefix + "d", "d", None)]
     if depth > 0:
         e += template(prefix + "d/", depth - 1)
